@@ -501,6 +501,13 @@ pub fn extra_sweep_msgs() -> Vec<LMsg> {
             both(L::LifeTime(!(1u32 << bit)), &mut v);
         }
     }
+    // long lists: every length up to 600 (UNKNOWN-ATTRIBUTES) / 200 (PASSWORD-ALGORITHMS), then up to the largest that fits
+    for n in (9..=600usize).chain([1000, 4096, 16384, 32760]) {
+        both(L::UnknownAttributes((0..n as u32).map(|x| (x * 2 + 1) as u16).collect()), &mut v);
+        if n <= 200 || n == 1000 || n == 4096 {
+            both(L::PasswordAlgorithms((0..n).map(|k| (1 + (k % 2) as u16, vec![k as u8; k % 3])).collect()), &mut v);
+        }
+    }
     // lists of every length 0..=8
     for n in 0..=8usize {
         both(L::UnknownAttributes((0..n as u16).map(|x| 0x7000 + x).collect()), &mut v);
